@@ -1,5 +1,132 @@
+import SamVerif.Model.OptKernel
 import Driver.Util
-/-! Line-protocol driver for property C02 (model side). Not implemented yet. -/
+/-! Line-protocol driver for property C02 (model side): `fold`, `tgt`, `merge`, `trip`, `flex`,
+`unwrap`, `ccp`, `ivloop`, `ivorig`. One answer line per input line. -/
+namespace Driver.C02
+open SamVerif.Opt Driver
+
+def opOf : String → Option Op
+  | "mul" => some .mul | "div" => some .div | "mod" => some .mod | "add" => some .add
+  | "sub" => some .sub | "and" => some .land | "or" => some .lor | "shl" => some .shl
+  | "shr" => some .shr | "xor" => some .xor | "lt" => some .lt | "le" => some .le
+  | "gt" => some .gt | "ge" => some .ge | "eq" => some .eq | "ne" => some .ne
+  | _ => none
+
+def opName : Op → String
+  | .mul => "mul" | .div => "div" | .mod => "mod" | .add => "add" | .sub => "sub"
+  | .land => "and" | .lor => "or" | .shl => "shl" | .shr => "shr" | .xor => "xor"
+  | .lt => "lt" | .le => "le" | .gt => "gt" | .ge => "ge" | .eq => "eq" | .ne => "ne"
+
+def guardOf : String → Option Guard
+  | "lt" => some .lt | "le" => some .le | "gt" => some .gt | "ge" => some .ge | _ => none
+
+/-- `i<n>` 32-bit literal, `j<n>` 31-bit literal, `s<k>` string name, `v<k>` variable. -/
+def exprOf (s : String) : Option Expr :=
+  let rest := (s.drop 1).toString
+  match s.front with
+  | 'i' => rest.toInt?.map .i32
+  | 'j' => rest.toInt?.map .i31
+  | 's' => rest.toNat?.map .str
+  | 'v' => rest.toNat?.map .var
+  | _ => none
+
+def pad2 (n : Nat) : String := if n < 10 then "0" ++ toString n else toString n
+
+def showExpr : Expr → String
+  | .i32 n => "i" ++ toString n
+  | .i31 n => "j" ++ toString n
+  | .str k => "s" ++ pad2 k
+  | .var k => "v" ++ pad2 k
+
+def operandOf (s : String) : Option Operand :=
+  match exprOf s with
+  | some (.i32 n) => some (.lit n)
+  | some (.var k) => some (.var k)
+  | _ => none
+
+def opdToExpr : Operand → Expr
+  | .lit n => .i32 n
+  | .var k => .var k
+
+def showTriple (t : Op × Expr × Expr) : String :=
+  opName t.1 ++ " " ++ showExpr t.2.1 ++ " " ++ showExpr t.2.2
+
+def showLoopRes : LoopRes → String
+  | .out p r => "out " ++ (if p.isEmpty then "-" else ",".intercalate (p.map toString)) ++ " ret " ++ toString r
+  | .fuel => "fuel"
+  | .panic => "panic"
+
+def ints (ws : List String) : Option (List Int) := ws.mapM String.toInt?
+
+def step (_ : Unit) (line : String) : Unit × String :=
+  let ans : String :=
+    match words line with
+    | ["fold", o, a, b] =>
+      match opOf o, a.toInt?, b.toInt? with
+      | some op, some a, some b =>
+        match evalImpl op a b with
+        | .val v => "v " ++ toString v
+        | .nofold => "nofold"
+        | .panic => "panic"
+      | _, _, _ => "bad-line"
+    | ["tgt", o, a, b] =>
+      match opOf o, a.toInt?, b.toInt? with
+      | some op, some a, some b =>
+        match evalTarget op a b with
+        | some v => "v " ++ toString v
+        | none => "trap"
+      | _, _, _ => "bad-line"
+    | ["merge", o, i, c1, c2] =>
+      match opOf o, opOf i, c1.toInt?, c2.toInt? with
+      | some o, some i, some c1, some c2 =>
+        match mergeBinary o i c1 c2 with
+        | .merged op c => "m " ++ opName op ++ " " ++ toString c
+        | .none => "none"
+        | .panic => "panic"
+      | _, _, _, _ => "bad-line"
+    | ["trip", g, i0, st, b] =>
+      match guardOf g, i0.toInt?, st.toInt?, b.toInt? with
+      | some g, some i0, some st, some b =>
+        match tripCount g i0 st b with
+        | .count n => "n " ++ toString n
+        | .unknown => "none"
+        | .panic => "panic"
+      | _, _, _, _ => "bad-line"
+    | ["flex", o, a, b] =>
+      match opOf o, exprOf a, exprOf b with
+      | some o, some a, some b => showTriple (flexUnwrapped o a b)
+      | _, _, _ => "bad-line"
+    | ["order", o, a, b] =>
+      match opOf o, exprOf a, exprOf b with
+      | some o, some a, some b => showTriple (flexibleOrder o a b)
+      | _, _, _ => "bad-line"
+    | ["unwrap", o, a, b] =>
+      match opOf o, exprOf a, exprOf b with
+      | some o, some a, some b => showTriple (binaryUnwrapped o a b)
+      | _, _, _ => "bad-line"
+    | ["ccp", o, a, b] =>
+      match opOf o, operandOf a, operandOf b with
+      | some o, some a, some b =>
+        match ccpRule o a b with
+        | .bind e => "bind " ++ showExpr (opdToExpr e)
+        | .panic => "panic"
+        | .keep => "stmt " ++ showTriple (flexUnwrapped o (opdToExpr a) (opdToExpr b))
+      | _, _, _ => "bad-line"
+    | [kind, g, i0, st, b, m, c, fuel] =>
+      match guardOf g, ints [i0, st, b, m, c], fuel.toNat? with
+      | some g, some [i0, st, b, m, c], some fuel =>
+        let L : ObsLoop := { g := g, i0 := i0, step := st, bound := b, m := m, c := c }
+        if kind == "ivloop" then showLoopRes (runOptimised L fuel)
+        else if kind == "ivorig" then showLoopRes (runOriginal L fuel)
+        else "bad-op"
+      | _, _, _ => "bad-line"
+    | _ => "bad-op"
+  ((), ans)
+
+def run : IO Unit := runLoop () step
+
+end Driver.C02
+
 def main (_args : List String) : IO UInt32 := do
-  IO.eprintln "drv-c02: not implemented yet"
-  return 2
+  Driver.C02.run
+  return 0
